@@ -343,7 +343,7 @@ def fix_loop_else(nodes):
 MUTATION_KINDS = [
     "del_end", "add_end_top", "add_end_nested", "unterminated", "empty_tag", "unknown_operator",
     "intermediate", "intermediate_in_apply", "intermediate_in_apply", "jump", "jump_in_apply_in_loop", "jump_in_apply_in_loop", "no_name", "missing_arg", "opener_no_name", "bad_whitespace", "autoescape_empty",
-    "python_level",
+    "python_level", "unterminated_block_tail", "unterminated_block_tail", "unterminated_block_tail",
 ]
 
 
@@ -768,6 +768,27 @@ def mutate(src, r, kind, selector, variant):
         return {"src": new, "expect": "exact", "line": line_of(src, c[0]),
                 "label": "ill_%s_no_name%s" % (op, "_multiline" if multi else ""), "kinds": (op + "_no_name",),
                 "multiline": bool(multi), "op": op}
+    if kind == "unterminated_block_tail":
+        # every kind of block left open at the end of the file x every kind of text tail: the file is cut at
+        # a generated position, an opener + body is written there and nothing closes it
+        c = pick(r.points)
+        if src[:c[0]].endswith("{"):
+            return None
+        opener = ["if t", "for i0 in range(2)", "while False", "block zz9", "apply up", "try"][variant % 6]
+        tails = ["", "{", " {", "x{", "\n{", "}{", "{{!", "{%!", "{#!", "{{! {", "{%!{", "x\n\n {", "{ ", "{}", "{{ n", "{% if t", "{# c",
+                 "{{", "{%", "{#"]
+        tail = tails[(selector // 3) % len(tails)]
+        body_text = ["body ", "", "a\nb ", "{{ n }}"][selector % 4]
+        head = src[:c[0]] + "{% " + opener + " %}" + body_text
+        new = head + tail
+        lo = line_of(src, c[0])
+        tail_kind = "lone_brace" if tail.rstrip(" ").endswith("{") and not tail.endswith(("{{", "{{ ")) else "other"
+        if tail in ("{{ n", "{% if t", "{# c", "{{", "{%", "{#"):
+            return {"src": new, "expect": "exact", "line": line_of(new, len(head)), "label": "ill_open_block_unterminated_tag_tail",
+                    "kinds": ("unterminated_expr", "unterminated_block", "unterminated_comment")}
+        label = {"": "ill_open_block_empty_tail"}.get(tail, "ill_open_block_escape_tail" if "!" in tail else
+                                                       ("ill_open_block_lone_brace_tail" if tail.rstrip(" ").endswith("{") else "ill_open_block_text_tail"))
+        return {"src": new, "expect": "range", "lo": lo, "hi": 1 + new.count("\n"), "label": label, "kinds": ("missing_end",)}
     if kind == "python_level":
         # not well-formed at the level of the Python statement the directive maps to: the documentation
         # promises "the same as the python statement" / "random Python errors" -> ParseError or SyntaxError
